@@ -206,7 +206,8 @@ class ErrorEstimator:
                 VPhi = 0
                 for j, elem_trial in enumerate(elems):
                     if t <= elem_trial.time_interval[0]: continue
-                    if SL_exact_eval and elem_trial.gamma_space is gamma:
+                    if SL_exact_eval and elem_trial.gamma_space is gamma and getattr(
+                            gamma, 'straight', False):
                         VPhi += Phi[j] * SL.evaluate_exact(
                             elem_trial, t, x_hat)
                     else:
